@@ -400,6 +400,10 @@ def run(ctx, only_cases=None):
         cases += dup_id_cases(rng, 60 if thorough else 6)
         cases += reset_cases(rng)
         cases += [{"mode": "nodes"}, {"mode": "backends"}]
+        # the legacy in-memory registry: concurrent claims of one new name (steered on its mutex, plus barrier rounds),
+        # directly and through the management API's create handler (claim -> Register refuses -> rollback)
+        cases += [{"mode": "registry", "registry": {"k": k, "rounds": 600 if thorough else 60, "loose": 3000 if thorough else 300,
+                                                     "mgmt": 200 if thorough else 20}} for k in (8, 2, 3)]
         cases += [{"mode": "base", "bases": b, "threads": [thr(1, [C("a", 1, x) for x in xs])]}
                   for b, xs in ((BASES, ["t.io", "", "TUNNOX.NET", "tunnox.net.", "x.tunnox.net"]), ([], ["t.io", "example.com"]))]
         ex = exhaustive_cases(guarded, cfix)
@@ -491,6 +495,8 @@ def run(ctx, only_cases=None):
                                                          ("counter key created without a deadline" if cfix else "pinned id counter (24 h TTL)"),
         "input_distribution": dict(stats, schedules=len(sc), other_modes=len(cases) - len(sc),
                                    host_spellings="name, name:80, name:8080, NAME, name:, name., [::1], [::1]:80, name:80:90, :name, [name]:80, truncated, prefixed"),
+        "registry_rounds_with_all_claimants_parked": sum(o["next"] for c, o in zip(cases, outs) if c["mode"] == "registry"),
+        "registry_rounds": sum(c["registry"]["rounds"] for c in cases if c["mode"] == "registry"),
         "generated_file_changed": gen_changed,
     })
     ctx.assumptions += [
@@ -501,6 +507,8 @@ def run(ctx, only_cases=None):
         "the removal guard (30 s TTL) does not expire while its holder is between two storage calls; TTLs of the cached keys are not exercised",
         "lookup time is a parameter of the model; the harness uses expiries 5000 s in the past / future",
         "registry and cloud-control contents are static during a schedule (stage 3 caching into the registry is then unobservable)",
+        "legacy DomainRegistry: one step = one critical section of its RWMutex; its concurrent-claim scenario cannot be gated (no call between "
+        "the sections) and is steered by holding a read lock until all claimants are parked (mutex state read by reflection), bounded rounds",
     ]
     if broken is not None:
         raise broken
